@@ -36,6 +36,10 @@ int main() {
     show("Y = a+b (L-shaped)", Y, 8);
     show("X + Y, X a box inside Y   [7 instead of 8]", X + Y, 8);
     show("Y + X", Y + X, 8);
+    // the minimal form found by the shrinker: a UNIT box inside the L-shaped union
+    Manifold a2 = B(0, 2, 0, 3, 0, 1), b2 = B(0, 3, 1, 3, 0, 1), U = B(0, 1, 1, 2, 0, 1);
+    show("U + F(a2+b2), U a unit sub-box   [7 instead of 8]", U + F(a2 + b2), 8);
+    show("F(a+b) + c, c = [0,1]x[0,1]x[2,3] inside a   [7 instead of 8]", Y + B(0, 1, 0, 1, 2, 3), 8);
     Manifold A = B(2, 3, 0, 3, 0, 2), s1 = B(2, 3, 1, 3, 1, 2), s2 = B(2, 3, 0, 1, 1, 2);
     show("F(A + s1) + s2, s1 and s2 sub-boxes of A", F(A + s1) + s2, 6);
     MeshGL64 g = Y.GetMeshGL64();
